@@ -4,6 +4,7 @@ package chain
 
 import (
 	"github.com/aergoio/aergo-lib/db"
+	"github.com/aergoio/aergo/v2/state"
 	"github.com/aergoio/aergo/v2/types"
 )
 
@@ -69,3 +70,6 @@ func VerifC06Marker(cs *ChainService) (start, best, top []byte, present bool, er
 	}
 	return m.BrStartHash, m.BrBestHash, m.BrTopHash, true, nil
 }
+
+// VerifC06SDB is the state DB of a Core (the harness' block producer commits block states into it).
+func (core *Core) VerifC06SDB() *state.ChainStateDB { return core.sdb }
